@@ -261,32 +261,7 @@ def run(rep: Report, tier: str) -> None:  # noqa: C901
     rep.floor("R03.8 component-level translations", n_scope, 5)
     # ---- R03.9 structure of an aggregation used as an operand: validator == structure builder (finite model) ----
     rep.rule("R03.9", "aggregation: components declared by semantic analysis == the transpiler's structure of the intermediate result (grouping identifiers, measures / int_var, viral attributes)")
-    from sa import structmodel as sm
-    from sa.e6 import Unmodelled
-    M = sm.Model(P)
-    n9 = 0
-    fb = P.func(sm.SV + "._build_aggregation_structure")
-    for cls, op in (("Sum", "sum"), ("Count", "count"), ("Min", "min"), ("Avg", "avg")):
-        for gop, g in ((None, None), ("group by", ["A"]), ("group by", ["A", "B"]), ("group except", ["A"]), ("group except", ["A", "B", "C"])):
-            def D() -> sm.MDS:
-                return M.ds("DS_1", ["A", "B", "C"], ["M", "N"], ["V"], ["T"])
-            try:
-                a, b = sm.agg_interpreter(M, cls, D(), gop, g), sm.agg_visitor(M, op, D(), gop, g)
-            except Unmodelled as e:
-                raise AnalysisError(f"R03.9 {op} {gop} {g}: construct outside the evaluator's language: {e}")
-            key = f"structure/{op}/{gop or 'no-grouping'}/{'+'.join(g or [])}"
-            if a[0] != "ok":
-                rep.instance("R03.9", key, nontrivial=False, sample={"validator": a})
-                continue
-            n9 += 1
-            va, vb = sm.comp_summary(a[1]), (sm.comp_summary(b[1]) if b[0] == "ok" and b[1] is not None else None)
-            rep.instance("R03.9", key, sample={"declared": [n for n, _ in va], "structure_visitor": [n for n, _ in vb] if vb else b})
-            if vb is None or dict(va) != dict(vb):
-                rep.add(transp.fnd("R03.9", key, fb, fb.node.lineno,
-                                   f"{op}(DS_1 {gop or ''} {g or ''}) on DS_1(ids A,B,C; measures M,N; attribute T; viral V): semantic analysis declares {[(n, str(r)) for n, r in va]} but the "
-                                   f"transpiler's structure of the intermediate result is {[(n, str(r)) for n, r in vb] if vb else b}: an operator applied to the aggregation in the same statement "
-                                   f"(abs(sum(DS_1 group by A))) drops or mistreats the differing components"))
-    rep.floor("R03.9 aggregation structures compared", n9, 16)
+    aggregation_structures(P, rep, "R03.9")
     # ---- R03.10 the type-aware aggregate override: decision table ----
     rep.rule("R03.10", "type-aware aggregate override (_build_agg_expr): applies the operator's own aggregate; no integer cast around an aggregate whose result can be fractional")
     from sa.e6 import ClassVal, Interp, Raised
@@ -328,3 +303,37 @@ def run(rep: Report, tier: str) -> None:  # noqa: C901
     unknown_resolution(P, rep, "R03.12")
     rep.assumptions = ["DuckDB's aggregates of the same name implement the VTL aggregate operators (null measure values ignored)",
                        "SQLBuilder.having() conjoins conditions (read from sql_builder.py: _having_conditions.append)"]
+
+
+def aggregation_structures(P: Program, rep: Report, rule: str, viral_only: bool = False) -> None:
+    """Aggregation.validate and StructureVisitor._build_aggregation_structure evaluated on DS_1(ids A,B,C; measures M,N; attribute T; viral V) for
+    sum / count / min / avg x five groupings.  viral_only (C28): only the viral attributes of the two structures are compared."""
+    from sa import structmodel as sm
+    from sa.e6 import Unmodelled
+    M = sm.Model(P)
+    n9 = 0
+    fb = P.func(sm.SV + "._build_aggregation_structure")
+    for cls, op in (("Sum", "sum"), ("Count", "count"), ("Min", "min"), ("Avg", "avg")):
+        for gop, g in ((None, None), ("group by", ["A"]), ("group by", ["A", "B"]), ("group except", ["A"]), ("group except", ["A", "B", "C"])):
+            def D() -> sm.MDS:
+                return M.ds("DS_1", ["A", "B", "C"], ["M", "N"], ["V"], ["T"])
+            try:
+                a, b = sm.agg_interpreter(M, cls, D(), gop, g), sm.agg_visitor(M, op, D(), gop, g)
+            except Unmodelled as e:
+                raise AnalysisError(f"{rule} {op} {gop} {g}: construct outside the evaluator's language: {e}")
+            key = f"structure/{op}/{gop or 'no-grouping'}/{'+'.join(g or [])}"
+            if a[0] != "ok":
+                rep.instance(rule, key, nontrivial=False, sample={"validator": a})
+                continue
+            n9 += 1
+            va, vb = sm.comp_summary(a[1]), (sm.comp_summary(b[1]) if b[0] == "ok" and b[1] is not None else None)
+            rep.instance(rule, key, sample={"declared": [n for n, _ in va], "structure_visitor": [n for n, _ in vb] if vb else b})
+            if viral_only:
+                va = tuple(x for x in va if 'VIRAL' in str(x[1]).upper())
+                vb = tuple(x for x in vb if 'VIRAL' in str(x[1]).upper()) if vb is not None else None
+            if vb is None or dict(va) != dict(vb):
+                rep.add(transp.fnd(rule, key, fb, fb.node.lineno,
+                                   f"{op}(DS_1 {gop or ''} {g or ''}) on DS_1(ids A,B,C; measures M,N; attribute T; viral V): semantic analysis declares {[(n, str(r)) for n, r in va]} but the "
+                                   f"transpiler's structure of the intermediate result is {[(n, str(r)) for n, r in vb] if vb else b}: an operator applied to the aggregation in the same statement "
+                                   f"(abs(sum(DS_1 group by A))) drops or mistreats the differing components"))
+    rep.floor(f"{rule} aggregation structures compared", n9, 16)
